@@ -172,3 +172,11 @@ def heap_alloc(eng, st):
     """the allocation counter of the current state (everything allocated so far lies below it)"""
     from pyvc.values import sv_int
     return sv_int(st.heap.alloc)
+
+
+@spec_function()
+def fresh_objects(eng, st):
+    """frame: every object allocated since the function was entered (always writable for the function; named as a loop
+    frame when a later loop updates objects an earlier loop of the same call made)"""
+    from pyvc.values import RefSet
+    return RefSet(lambda r: r >= eng.entry_alloc)
